@@ -15,6 +15,7 @@ Object identity (`out is x or out is y`) and dtype (`y.to(x)`) are modelled by `
 -/
 import QV.Model.CplxScalar
 import QV.Model.Hilbert
+import QV.Model.PyFlag
 namespace QV.Cplx
 
 /-- torch dtypes the kernel meets: `cplx.I` is float32, everything else float64. -/
@@ -559,6 +560,13 @@ def einsumS (raw : RawEq) (a b : Tensor α) (realPart imagPart : Bool) : Except 
   | .ok eq => einsum eq a b realPart imagPart
   | .error _ => einsum badEq a b realPart imagPart
 
+/-- `einsum(equation, a, b, real_part, imag_part)` with the OBJECTS a caller hands to the two options documented as `bool`
+(cplx.py:209-224): every test of the code is a truth test (`if real_part:`, `if imag_part:`, `if real_part and imag_part:`,
+`elif real_part:`, `elif imag_part:`), never an identity test, so `1` / `0`, `numpy.bool_`, 0-dim bool arrays / tensors select the
+parts like the singletons -/
+def einsumF (raw : RawEq) (a b : Tensor α) (realPart imagPart : PyFlag) : Except PyErr (EinRes α) :=
+  einsumS raw a b realPart.truthy imagPart.truthy
+
 /-- `conj(x)` (cplx.py:248-257) -/
 def conj (x : Tensor α) : Except PyErr (Tensor α) := do
   let xr ← real x
@@ -596,13 +604,14 @@ def normSqr (x : Tensor α) : Except PyErr (Tensor α) := do
 
 end ring
 
-/-! ### division, modulus, sigmoid (cplx.py:268-301, 326-408 of the tree with `proposed/F17_all.diff` applied)
+/-! ### division, modulus, sigmoid (cplx.py:268-301, 326-408)
 
-The formulas are those of the code AFTER the proposed repairs F17 (`proposed/F17_*.diff`): the modulus is `torch.hypot`,
+The formulas are those of the code as it is since fix F17 (/repo commit 7038bfb; the patches are kept in `proposed/F17_*.diff`, the
+tags "after F17_…" below name the part of that commit): the modulus is `torch.hypot`,
 quotients scale the divisor by its larger component before `|·|²` is formed, `norm` scales by the largest component, the
 sigmoid forms `e^{-z}` in the right half plane and `e^{z}` in the left one.  Over ℝ these are the same numbers as the
 textbook formulas (theorems `C15_absolute_value`, `C15_inverse`, …); over `Float` no intermediate leaves the finite range
-when the result is representable, which the pre-repair formulas (`|z|²` formed explicitly, `e^z/(1+e^z)`) do for moduli
+when the result is representable, which the pre-F17 formulas (`|z|²` formed explicitly, `e^z/(1+e^z)`) did for moduli
 beyond 1e±154 resp. `Re z > 709.78`. -/
 section field
 variable {α : Type} [Add α] [Mul α] [Neg α] [Sub α] [Div α] [Zero α] [One α] [Transc α] [LT α] [DecidableLT α]
